@@ -736,6 +736,12 @@ pub fn judge(inv: &mut Inv, prev_clean: Option<&BTreeSet<usize>>, prev_failed: &
             if spec.restat {
                 if !sh.starts.is_empty() {
                     push(&mut v, "C03", "restat-ran", format!("-t restat started commands: {:?}", sh.starts.iter().map(|s| s.uid).collect::<Vec<_>>()));
+                } else {
+                    // no command completed: the summary says so
+                    let last = inv.stdout.lines().last().unwrap_or("").to_string();
+                    if last != "n2: no work to do" {
+                        push(&mut v, "C19", "summary", format!("-t restat ran no command, yet the summary line is {:?}", last));
+                    }
                 }
                 return v;
             }
